@@ -74,12 +74,12 @@ _ONCE_EV_RULES = [
     Call(r"\bPIKA_INVOKE", "if (once_invoke_f()) VX_THROW_POINT", None),
     Sub(r"\bthrow;", "VX_RETHROW();", None),
 ]
-# at the loop head this call owes nothing; it has either not owned an attempt (and then has not touched the event except to wait)
+# at the loop head this call owes nothing; it has either not owned an attempt (and then has not re-armed the event)
 # or has completed one (set paid last)
 _ONCE_EV_LOOP = """
 __CPROVER_assigns(ONCE_EV_FRAME)
 __CPROVER_loop_invariant(ST_OK(flag->status_) && !g_self_running && !g_thrown && !g_uncaught && !g_owes_set)
-__CPROVER_loop_invariant((!g_won && !g_invoked && !g_invoked_ok && g_stores == 0 && g_sets == 0 && g_resets == 0 && g_evlast == EVOP_NONE) || (g_won && g_invoked && g_invoked_ok && g_stores == 1 && g_sets >= 1 && g_last_stored == ONCE_COMPLETE && flag->status_ == ONCE_COMPLETE && g_evlast == EVOP_SET))
+__CPROVER_loop_invariant((!g_won && !g_invoked && !g_invoked_ok && g_stores == 0 && g_resets == 0 && g_evlast != EVOP_RESET) || (g_won && g_invoked && g_invoked_ok && g_stores == 1 && g_sets >= 1 && g_last_stored == ONCE_COMPLETE && flag->status_ == ONCE_COMPLETE && g_evlast == EVOP_SET))
 """
 _ONCE_CONSTS = Lift(_ONCE_HPP, r"long const function_complete_flag_value =", fragment_end=r"long const running_value =[^;]*;",
                     rules=[_ONCE_DIGITSEP])
